@@ -297,7 +297,7 @@ pub fn gen(tier: Tier, r: &mut Rng, emit: &mut dyn FnMut(String)) {
     }
 
     // (c) main random stream over all classes
-    let rounds = if quick { 900 } else { 12_000 };
+    let rounds = if quick { 2_400 } else { 8_000 };
     for i in 0..rounds {
         let class = (i % 9) as u64;
         let n = pick_n(r, max_n);
